@@ -88,8 +88,11 @@ def knapsack_eighths_generator(num_items: int, total_budget: float) -> Any:
             key, wk, vk = jax.random.split(key, 3)
             weights = jax.random.randint(wk, (self.num_items,), 1, 9).astype(float) / 8
             values = jax.random.uniform(vk, (self.num_items,))
+            # the instance's own budget: a fraction (1/2, 3/4 or all) of the nominal one - the budget is part of the instance
+            key, bk = jax.random.split(key)
+            frac = jnp.asarray([0.5, 0.75, 1.0])[jax.random.randint(bk, (), 0, 3)]
             return State(weights=weights, values=values, packed_items=jnp.zeros(self.num_items, dtype=bool),
-                         remaining_budget=jnp.array(self.total_budget, float), key=key)
+                         remaining_budget=jnp.array(self.total_budget, float) * frac, key=key)
 
     return EighthsGenerator(num_items, total_budget)
 
